@@ -388,7 +388,7 @@ def d9(ctx, prog):
     from ..ratfun import Poly, RF
     acc = prog.need_class(TT, 'TTestThreadAccumulator')
     ana = prog.need_class(TT, 'TTestAnalysis')
-    comp, fin = acc.methods.get('compute'), ana.methods.get('_compute')
+    comp, fin = prog.resolve_method(acc, 'compute'), prog.resolve_method(ana, '_compute')       # along the MRO (statistics may sit in a base class)
     key = f'{fin.key if fin else ana.key}::formula'
     if comp is None or fin is None:
         ctx.undecided('C09-D9', key, 'compute / _compute not found', ana.mod.relpath)
@@ -492,6 +492,10 @@ def d11(ctx, prog):
 def run(ctx, prog):
     from .. import universe as _uni0
     _uni0.inline_base_entry_points(ctx, prog)
+    from .. import desugar as _ds
+    ds_ = _ds.desugar_with(prog, ('scared.ttest',))
+    if ds_:
+        ctx.note(f'with-statements over repository context managers desugared to try/except/finally: {ds_}')
     ctx.rule('C09-D5', 'stop-request typestate: the accumulator clears its stop flag on every path before entering the batch loop')
     ctx.rule('C09-D1', 'the two accumulation threads share no writable object: distinct accumulators, stores only to self/locals, staticmethod kernel bound to instance arrays, shared container code writes no global/class state')
     ctx.rule('C09-D2', 'the kernel\'s prange stores are disjoint and it casts to the precision before reducing')
